@@ -43,6 +43,10 @@ VARIANTS = [
          new="from pydantic import BaseModel, ConfigDict\n\nimport numpy as np\nimport pandas as pd\n\nos.environ[\"OMP_NUM_THREADS\"] = \"1\"\nos.environ[\"MKL_NUM_THREADS\"] = \"1\"\nos.environ[\"OPENBLAS_NUM_THREADS\"] = \"1\"\n"),
     dict(id="c03-optimizer-shares-x0", property="C03", kind="break", expect_rule="R03.3", file=O,
          old="        self.coef_id = coef_id\n        self.x0 = np.array(x0)", new="        self.coef_id = coef_id\n        self.x0 = x0"),
+    dict(id="c03-elasticnet-warm-start", property="C03", kind="break", expect_rule="R03.1e", file=H,
+         old="            random_state=self.settings.elasticnet._seed,\n        )", new="            random_state=self.settings.elasticnet._seed,\n            warm_start=self.settings.elasticnet.adaptive_weights,\n        )"),
+    dict(id="c03-benign-warm-start-false", property="C03", kind="benign", file=H,
+         old="            random_state=self.settings.elasticnet._seed,\n        )", new="            random_state=self.settings.elasticnet._seed,\n            warm_start=False,\n        )"),
     dict(id="c03-benign-sorted-comprehension", property="C03", kind="benign", file=H,
          old="        missing_hour = set(range(24)) - set(month.index.hour)", new="        missing_hour = set(range(24)).difference(month.index.hour)"),
     dict(id="c03-benign-seed-plus-constant", property="C03", kind="benign", file=H,
